@@ -16,10 +16,16 @@ package capnp
 // PARTIAL: only the map writes of Join are decided (moving pipelined clients to the parent must not
 // write a nil map).  Its lock discipline needs the promise chain to be acyclic and nil-free, an
 // invariant over the whole chain that is not stated here.
+// The references the joining promise holds on the chain's proxy-client table move to the parent
+// as a whole: between taking over the clients and releasing the parent, the parent's count has
+// grown by exactly the joining promise's count, which is then zero (conservation of the sum).
 //@ func Promise.Join
 //@   props C11
 //@   partial nilmap
 //@   requires p != nil && from != nil && from.f.promise != nil && from.f.promise != p
+//@   snap before "p.clients = nil" prefs int: parent.clientsRefs
+//@   snap before "p.clients = nil" crefs int: p.clientsRefs
+//@   assert before "parent.mu.Unlock()#4" refsmoved: implies(parent != p, parent.clientsRefs == prefs+crefs && p.clientsRefs == 0)
 
 // ---------------------------------------------------------------- lock-discipline sweep (PARTIAL)
 // Lock typestate only: every Lock is of a mutex this call does not hold, every Unlock of one it
